@@ -451,7 +451,10 @@ pub fn drive(args: &Args) -> i32 {
     let n = args.num("n", 40);
     let big = args.num("big", 0); // number of multi-MB layouts
     let huge = args.num("huge", 0); // number of > 6.9 MB layouts (real DIFAT need)
-    // number of sparse > 6.9 MB layouts: small streams, > 13952 sectors of 512 bytes mostly free, the
+    // number of sparse layouts: small streams, mostly free 512-byte sectors, the streams' sectors at
+    // the highest ids.  The i-th one needs 1 + i % 3 DIFAT sectors: > 13952 sectors (6.9 MB) for one,
+    // > 30208 (15.4 MB) for two, > 46464 (23.8 MB) for three, so that FAT sectors listed in the
+    // last DIFAT sector of the chain describe the streams.
     // streams' sectors at the highest ids, i.e. described by FAT sectors listed in a DIFAT sector
     let sparse = args.num("sparse", 0);
     let mut rng = StdRng::seed_from_u64(args.seed());
@@ -531,7 +534,8 @@ pub fn drive(args: &Args) -> i32 {
         l.fill_seed = rng.gen();
         if is_sparse {
             l.extra_fat = 0;
-            l.free_sectors = 109 * 128 + rng.gen_range(1..300);
+            let ndifat = 1 + ((run - (n + big + huge)) % 3) as usize;
+            l.free_sectors = (109 + 127 * (ndifat - 1)) * 128 + rng.gen_range(1..300);
         }
         let p = cfb::plan(&paths, &lens, &l);
         let mut ids: Vec<u32> = (0..p.total_sectors as u32).collect();
